@@ -22,18 +22,14 @@ def load_contracts():
     from . import api, verify, specmodels  # noqa: F401
     if VERIF not in sys.path:
         sys.path.insert(0, VERIF)
-    api.REGISTRY[:] = []
-    api.LEMMAS[:] = []
-    api.TABLES[:] = []
+    if getattr(api, "_loaded", False):
+        return api
+    api._loaded = True
     for f in sorted(glob.glob(os.path.join(CONTRACTS_DIR, "*.py"))):
         name = os.path.basename(f)[:-3]
         if name.startswith("_"):
             continue
-        mod = "contracts." + name
-        if mod in sys.modules:
-            importlib.reload(sys.modules[mod])
-        else:
-            importlib.import_module(mod)
+        importlib.import_module("contracts." + name)
     for c in api.REGISTRY:
         c.target_obj = verify.resolve_target(c.target)
         c.short = c.target.split("bromelia.", 1)[-1]
@@ -167,12 +163,16 @@ def main(argv=None):
         return 1 if res.get("confirmed") else 0
 
     t_start = time.time()
+    global _API
     api = load_contracts()
+    _API = api
     tasks = []
     for i, c in enumerate(api.REGISTRY):
         if c.prop == prop or prop in c.also:
             if args.only and args.only not in c.label:
                 continue
+            if c.proof == "table":
+                continue          # assumed at call sites; discharged by a table obligation
             tasks.append(("contract", i))
     for i, l in enumerate(api.LEMMAS):
         if l.prop == prop and not (args.only and args.only not in l.name):
